@@ -7,6 +7,14 @@ RULES = {"C02.R1", "C02.R2", "C02.R3", "C02.R4", "C02.R5", "C02.R6", "C02.R7", "
 
 def extra(res, facts, entries, protos):
     _proto.refusal_rules(res, "C02.R8", facts)
+    from .. import keys_sem
+    for f in keys_sem.v3_public_key_admission(facts, "C02.S11"):
+        res.oblige(bool(f.ok))
+        if f.ok:
+            res.inst(f.rule, f.desc)
+        else:
+            res.violate(f.rule, f.where, f.construct, f.msg if f.ok is False else "not decided (fail closed): " + f.msg, file=f.file, line=f.line)
+    res.floor("C02.S11", 2)
 
 
 def run(tier):
